@@ -245,6 +245,15 @@ func lockstep(idx int64, m mk, ops []op) (changes int) {
 			sinceReset = append(sinceReset, o.V)
 			sum += o.V
 			lo, hi = math.Min(lo, o.V), math.Max(hi, o.V)
+			if dirty && m.kind == "expavg" && m.warm != nil && len(sinceReset) <= m.warm() {
+				// warm-up of the exponential average: the reading after an Add is the arithmetic mean of the samples added since
+				// the reset, whatever Update did to the value in between
+				mean := sum / float64(len(sinceReset))
+				if math.Abs(after-mean) > relTol*mean {
+					viol("warmup-not-arithmetic-mean/after-an-update", i, rt.J{"get": after, "mean": mean, "n": len(sinceReset)})
+				}
+				rt.Count("warmup_mean_checks_after_an_update", 1)
+			}
 			if dirty {
 				continue
 			}
